@@ -143,9 +143,12 @@ def st_recorded(draw, pool):
 _POOL = [0.0, 1.0, -1.0, 2.0, 0.5, 3.0, -2.5, 10.0, 1e-3]
 
 
+SHAPES = ["explicit", "constant", "plateau", "decreasing", "no_baseline"]
+
+
 @st.composite
-def st_degenerate(draw):
-    shape = draw(st.sampled_from(["explicit", "explicit", "constant", "plateau", "decreasing", "no_baseline"]))
+def st_degenerate(draw, shape=None):
+    shape = shape or draw(st.sampled_from(SHAPES))
     unit = draw(st.sampled_from([1e-9, 1e-9, 1.0, 1e-12]))
     if shape == "explicit":
         vals = draw(st.lists(st.one_of(st.sampled_from(_POOL), st.floats(-10, 10)), min_size=0, max_size=12))
@@ -213,7 +216,7 @@ def call(ctx, sub, desc, force, method, ret_details=False):
     return True, res
 
 
-def check_wellformed(case, ctx, force, make_idnt, true_idx=None, classes=()):
+def check_wellformed(case, ctx, force, make_idnt):
     n = force.size
     idmax = int(np.argmax(force))
     frange = float(force.max() - force.min())
@@ -367,7 +370,10 @@ def run(ctx):
         from vlib.runner import HarnessError
         raise HarnessError(f"estimator list changed: {ids}")
     ctx.extra["estimators"] = sorted(ids)
-    ctx.hypothesis(st_degenerate(), check_case, ctx.scale(1200, 48000), label="degenerate")
+    # one search per shape: a defect on one kind of degenerate input does not hide the others
+    for shape in SHAPES:
+        quick, thorough = (480, 19200) if shape == "explicit" else (180, 7200)
+        ctx.hypothesis(st_degenerate(shape), check_case, ctx.scale(quick, thorough), label="degenerate-" + shape)
     ctx.hypothesis(st_clean(), check_case, ctx.scale(320, 12800), label="clean")
     ctx.hypothesis(st_synth(), check_case, ctx.scale(240, 7200), label="synth")
     if ctx.tier == "quick":
